@@ -266,7 +266,10 @@ def check(ctx, replay=None):
             S.update({"Pair": [("a", ("prim", "u8")), ("b", ("prim", "u32"))]})
             S.update({"Triple": [("pair", ("struct", "Pair")), ("c", ("prim", "u8"))], "Quad": [("p", ("struct", "Pair")), ("x", ("prim", "u16")), ("y", ("prim", "u64"))],
                       "Millis": [("value", ("prim", "u16"))], "Settings": [("id", ("prim", "u32")), ("timeout", ("struct", "Millis")), ("retries", ("prim", "u8"))],
-                      "WrapPair": [("inner", ("struct", "Pair"))], "OptS": [("a", ("prim", "u8")), ("o", ("opt", ("struct", "Settings"))), ("z", ("prim", "i64"))],
+                      "WrapPair": [("inner", ("struct", "Pair"))],
+                      # three levels: a padded two-scalar struct inside a two-scalar wrapper inside a struct with more scalars
+                      "Large3": [("m", ("struct", "WrapPair")), ("x", ("prim", "u16")), ("y", ("prim", "u16"))],
+                      "WrapWrapPair": [("w", ("struct", "WrapPair"))], "Large4": [("a", ("prim", "u8")), ("m", ("struct", "WrapWrapPair")), ("z", ("prim", "i64"))], "OptS": [("a", ("prim", "u8")), ("o", ("opt", ("struct", "Settings"))), ("z", ("prim", "i64"))],
                       # optional payloads of every alignment, 8 included (i64 slots are BigInts in the flattened argument list)
                       "Payload": [("f", ("prim", "f64")), ("s", ("prim", "u16"))],
                       "Holder": [("id", ("prim", "u8")), ("big", ("opt", ("prim", "u64"))), ("p", ("opt", ("struct", "Payload"))), ("small", ("opt", ("prim", "u32"))), ("tiny", ("opt", ("prim", "i8")))],
